@@ -603,4 +603,15 @@ theorem Un.isolate_orphan' (s : Store K E) (h : Mirror s) (u : K) :
   by_cases hw : w = u
   · simp [hw, vals]
   · simp [hw, vals, dropKey, List.filter_filter]
+/-! ### degree sums after a history -/
+
+theorem Di.degree_balance_run' (ops : List (Op K E)) (ks : List K) (hnd : ks.Nodup)
+    (hk : ∀ k ∈ opKeys ops, k ∈ ks) :
+    (ks.map fun k => ((Di.run ops).get k).out.length).sum = (ks.map fun k => ((Di.run ops).get k).inn.length).sum :=
+  degree_balance' _ (Di.run_mirror ops) ks hnd (fun k _ p hp => hk _ (Di.run_keysIn ops k p hp))
+
+theorem Un.handshake_history' (ops : List (Op K E)) (ks : List K) (hnd : ks.Nodup)
+    (hk : ∀ k ∈ opKeys ops, k ∈ ks) :
+    (ks.map fun k => (unAdj (Un.run ops) k).length).sum = 2 * (ks.map fun k => ((Un.run ops).get k).out.length).sum :=
+  Un.handshake' _ (Un.run_mirror ops) ks hnd (fun k _ p hp => hk _ (Un.run_keysIn ops k p hp))
 end G
